@@ -465,7 +465,7 @@ func afterTerminalBody(x *harness.X) {
 	lib.Reset()
 	s := &rst{role: "client-after-terminal"}
 	x.Vars["rst"] = s
-	term := []string{"failed", "finished"}[rt.Choose(2)]
+	term := []string{"failed", "finished", "finishing"}[rt.Choose(3)]
 	s.what = term + "/" + whats[rt.Choose(len(whats))]
 	cconn, sconn := rt.Pipe(64 << 10)
 	tr := lime.NewTCPTransportFromConn(cconn, nil, false)
@@ -494,7 +494,7 @@ func afterTerminalBody(x *harness.X) {
 	_ = p.Send([]byte(`{"state":"` + term + `","id":"S1","from":"postmaster@srv.test/s1"` + reason + `}`))
 	rt.Quiesce()
 	<-cc.RcvDone()
-	x.Obs("client saw the end of the session, state=%v", cc.State())
+	x.Obs("client saw the session envelope, state=%v", cc.State())
 	written := false
 	sconn.Tap = nil
 	cconn.Tap = func(b []byte) { written = true }
@@ -562,7 +562,7 @@ func main() {
 	harness.Main(harness.Check{
 		Property: "C06",
 		Level:    "model_checking",
-		Rule:     "send direction: teardown {client finish, server finish, server fail} x one send call per role from {SendMessage, SendNotification, SendRequestCommand, SendResponseCommand, ProcessCommand} x release stage per role {from the start, once established, once torn down} as data choices (675 combinations) over the in-process and TCP transports, all schedules within the deviation bound (delay bounding) from before the handshake; wire taps decode what was really written. After a peer-sent finished/failed on a connection the peer keeps open, each of the five send operations must fail and write nothing. Receive direction: each data envelope kind injected at each of 3 handshake positions against the real Server and the real ClientChannel; distinct outcome = distinct observation log",
+		Rule:     "send direction: teardown {client finish, server finish, server fail} x one send call per role from {SendMessage, SendNotification, SendRequestCommand, SendResponseCommand, ProcessCommand} x release stage per role {from the start, once established, once torn down} as data choices (675 combinations) over the in-process and TCP transports, all schedules within the deviation bound (delay bounding) from before the handshake; wire taps decode what was really written. After a peer-sent finished/failed/finishing session envelope on a connection the peer keeps open, each of the five send operations must fail and write nothing. Receive direction: each data envelope kind injected at each of 3 handshake positions against the real Server and the real ClientChannel; distinct outcome = distinct observation log",
 		Assume:   []string{"in-process transport has no wire: 'written' is approximated there by 'delivered to the peer application'", "calls that overlap a transition may linearise on either side (the statement does not say otherwise)"},
 		Scenarios: []harness.Scenario{
 			{Name: "send/tcp", Opt: opt, Quick: 1, Thorough: 1, Prune: false, Body: sendBody("tcp", whats), Final: sendFinal},
